@@ -652,6 +652,104 @@ theorem reopen_spec (k : HashKind) (t : LNode) :
       have := d3 h
       exact ⟨by simp, this.2.1, this.2.2⟩
 
+/-! ### reading through unresolved nodes (`Trie.Get` resolves and keeps what it resolved) -/
+
+theorem getR_spec (t : LNode) (hl : LazyOK t) (key : Path) :
+    erase (getR t key).2.1 = erase t ∧ LazyOK (getR t key).2.1 ∧
+    (getR t key).1 = Trie2.get (erase t) key := by
+  induction t generalizing key with
+  | nil => simp [getR, erase, Trie2.get, LazyOK]
+  | value v => simp [getR, erase, Trie2.get, LazyOK]
+  | lazy x sub ih =>
+    obtain ⟨e1, e2, e3⟩ := ih hl.2 key
+    exact ⟨by simpa [getR, erase] using e1, by simpa [getR] using e2, by simpa [getR, erase] using e3⟩
+  | edge p c fl ih =>
+    simp only [getR]
+    by_cases hp : p.isPrefixOf key = true
+    · obtain ⟨e1, e2, e3⟩ := ih hl (key.drop p.length)
+      simp only [hp, if_true]
+      refine ⟨?_, ?_, ?_⟩
+      · split
+        · simp [erase, e1]
+        · rfl
+      · split
+        · exact e2
+        · exact hl
+      · simp [erase, Trie2.get, hp, e3]
+    · simp only [hp, Bool.false_eq_true, if_false]
+      exact ⟨trivial, hl, by simp [erase, Trie2.get, hp]⟩
+  | bin l r fl ihl ihr =>
+    cases key with
+    | nil => simp only [getR]; exact ⟨trivial, hl, by simp [erase, Trie2.get]⟩
+    | cons b ks =>
+      simp only [getR]
+      cases b with
+      | true =>
+        obtain ⟨e1, e2, e3⟩ := ihr hl.2 ks
+        simp only [if_true]
+        refine ⟨?_, ?_, ?_⟩
+        · split
+          · simp [erase, e1]
+          · rfl
+        · split
+          · exact ⟨hl.1, e2⟩
+          · exact hl
+        · simp [erase, Trie2.get, e3]
+      | false =>
+        obtain ⟨e1, e2, e3⟩ := ihl hl.1 ks
+        simp only [Bool.false_eq_true, if_false]
+        refine ⟨?_, ?_, ?_⟩
+        · split
+          · simp [erase, e1]
+          · rfl
+        · split
+          · exact ⟨e2, hl.2⟩
+          · exact hl
+        · simp [erase, Trie2.get, e3]
+
+theorem getR_cacheOKL {k : HashKind} (t : LNode) (hl : LazyOK t) (hc : CacheOKL k t) (key : Path) :
+    CacheOKL k (getR t key).2.1 := by
+  induction t generalizing key with
+  | nil => simpa [getR] using hc
+  | value v => simpa [getR] using hc
+  | lazy x sub ih => simpa [getR] using ih hl.2 hc.2 key
+  | edge p c fl ih =>
+    simp only [getR]
+    by_cases hp : p.isPrefixOf key = true
+    · simp only [hp, if_true]
+      split
+      · refine ⟨?_, ih hl hc.2 _⟩
+        intro x hx
+        have := hc.1 x hx
+        rw [this, rawHashL_erase, rawHashL_erase]
+        simp [erase, (getR_spec c hl (key.drop p.length)).1]
+      · exact hc
+    · simp only [hp, Bool.false_eq_true, if_false]; exact hc
+  | bin l r fl ihl ihr =>
+    cases key with
+    | nil => simpa [getR] using hc
+    | cons b ks =>
+      simp only [getR]
+      cases b with
+      | true =>
+        simp only [if_true]
+        split
+        · refine ⟨?_, hc.2.1, ihr hl.2 hc.2.2 _⟩
+          intro x hx
+          have := hc.1 x hx
+          rw [this, rawHashL_erase, rawHashL_erase]
+          simp [erase, (getR_spec r hl.2 ks).1]
+        · exact hc
+      | false =>
+        simp only [Bool.false_eq_true, if_false]
+        split
+        · refine ⟨?_, ihl hl.1 hc.2.1 _, hc.2.2⟩
+          intro x hx
+          have := hc.1 x hx
+          rw [this, rawHashL_erase, rawHashL_erase]
+          simp [erase, (getR_spec l hl.1 ks).1]
+        · exact hc
+
 /-! ### the invariant across restarts -/
 
 theorem cacheOK_erase {k : HashKind} {t : LNode} (h : CacheOKL k t) : CacheOK k (erase t) := by
@@ -727,6 +825,11 @@ theorem step_invL {k : HashKind} {n : Nat} {t : LNode} {m : Path → HTerm} (h :
     · exact del_cacheOKL h.cache key
     · exact ins_cacheOKL h.cache key v
   | hash => exact hash_step_inv h
+  | get key =>
+    simp only [step, labsStep]
+    obtain ⟨e1, e2, _⟩ := getR_spec t h.lazyOK key
+    exact ⟨e2, getR_cacheOKL t h.lazyOK h.cache key, by rw [e1]; exact h.wf,
+      by intro k' hk'; rw [e1]; exact h.sem k' hk'⟩
   | reopen =>
     simp only [step, labsStep]
     have h1 := hash_step_inv h
